@@ -109,7 +109,7 @@ def P(pid):
             ('RF-B interface constants proof_gen/proof_verify', lambda c: rf_consts.rule_interface_constants(c, [T.POK + 'proof_gen', T.POK + 'proof_verify']), 10),
             ('RF-B index normalisation', rf_codec.rule_index_normalisation, 3),
             ('RF-M generator / message pairing', rf_codec.rule_generator_pairing, 8),
-            ('RF-P accumulation loops cover every message', lambda c: rf_codec.rule_loop_coverage(c, fns=['bbsplus::proof::proof_init', 'bbsplus::proof::proof_verify_init', 'bbsplus::proof::proof_finalize']), 8),
+            ('RF-P accumulation loops cover every message', lambda c: rf_codec.rule_loop_coverage(c, fns=['bbsplus::proof::proof_init', 'bbsplus::proof::proof_verify_init', 'bbsplus::proof::proof_finalize']), 5),
             ('RF-T size thresholds (uniform behaviour in L / lengths)', rf_frame.rule_size_thresholds, 3),
             ('RF-G2 role positions (prover)', rf_rand.rule_role_projection, 6),
             ('RF-F proof_gen panic census', lambda c: rf_panic.rule_panic_census(c, entries=[T.POK + 'proof_gen'], with_serde=False, min_functions=12), 40),
@@ -313,19 +313,25 @@ CONTROLS = {
 
 # negative controls (thorough tier): behaviour-preserving refactorings; the property's quick check must stay silent on each of them.
 NEGATIVE = {
-    'C01': ['selftest/negative/N1-zip-loop-core_verify.patch', 'selftest/negative/N8-msm-helper-iter_mut.patch'],
-    'C02': ['selftest/negative/N1-zip-loop-core_verify.patch', 'selftest/negative/N2-helper-domain-input.patch', 'selftest/negative/N7-hash-call-in-helper.patch',
-            'selftest/negative/N8-msm-helper-iter_mut.patch'],
-    'C03': ['selftest/negative/N9-index-check-closure.patch'],
-    'C04': ['selftest/negative/N4-reorder-rename-proof_verify_init.patch', 'selftest/negative/N7-hash-call-in-helper.patch'],
-    'C05': ['selftest/negative/N9-index-check-closure.patch'],
-    'C06': ['selftest/negative/N3-get-okor-match-commitment.patch'],
-    'C08': ['selftest/negative/N3-get-okor-match-commitment.patch', 'selftest/negative/N4-reorder-rename-proof_verify_init.patch',
-            'selftest/negative/N8-msm-helper-iter_mut.patch', 'selftest/negative/N9-index-check-closure.patch'],
-    'C09': ['selftest/negative/N3-get-okor-match-commitment.patch'],
-    'C10': ['selftest/negative/N2-helper-domain-input.patch', 'selftest/negative/N7-hash-call-in-helper.patch'],
-    'C16': ['selftest/negative/N5-C16-helper-correct-rounding.patch'],
-    'C18': ['selftest/negative/N6-C18-helper-correct-bits.patch'],
+    'C01': ['selftest/negative/N1-zip-loop-core_verify.patch', 'selftest/negative/N8-msm-helper-iter_mut.patch', 'selftest/negative/R3N1-p1.patch', 'selftest/negative/R3N1-p2.patch', 'selftest/negative/R3N1-p3.patch', 'selftest/negative/R3N1-p4.patch'],
+    'C02': ['selftest/negative/N1-zip-loop-core_verify.patch', 'selftest/negative/N2-helper-domain-input.patch', 'selftest/negative/N7-hash-call-in-helper.patch', 'selftest/negative/N8-msm-helper-iter_mut.patch', 'selftest/negative/R3N1-p1.patch', 'selftest/negative/R3N1-p2.patch', 'selftest/negative/R3N1-p3.patch', 'selftest/negative/R3N1-p4.patch', 'selftest/negative/R3N5-p1.patch', 'selftest/negative/R3N5-p2.patch', 'selftest/negative/R3N5-p3.patch', 'selftest/negative/R3N5-p4.patch'],
+    'C03': ['selftest/negative/N9-index-check-closure.patch', 'selftest/negative/R3N2-p1.patch', 'selftest/negative/R3N2-p2.patch', 'selftest/negative/R3N2-p3.patch', 'selftest/negative/R3N2-p4.patch', 'selftest/negative/R3N3-p1.patch', 'selftest/negative/R3N3-p2.patch', 'selftest/negative/R3N3-p3.patch', 'selftest/negative/R3N3-p4.patch'],
+    'C04': ['selftest/negative/N4-reorder-rename-proof_verify_init.patch', 'selftest/negative/N7-hash-call-in-helper.patch', 'selftest/negative/R3N3-p1.patch', 'selftest/negative/R3N3-p2.patch', 'selftest/negative/R3N3-p3.patch', 'selftest/negative/R3N3-p4.patch'],
+    'C05': ['selftest/negative/N9-index-check-closure.patch', 'selftest/negative/R3N2-p1.patch', 'selftest/negative/R3N2-p2.patch', 'selftest/negative/R3N2-p3.patch', 'selftest/negative/R3N2-p4.patch', 'selftest/negative/R3N4-p1.patch', 'selftest/negative/R3N4-p2.patch', 'selftest/negative/R3N4-p3.patch', 'selftest/negative/R3N4-p4.patch'],
+    'C06': ['selftest/negative/N3-get-okor-match-commitment.patch', 'selftest/negative/R3N3-p1.patch', 'selftest/negative/R3N3-p2.patch', 'selftest/negative/R3N3-p3.patch', 'selftest/negative/R3N3-p4.patch', 'selftest/negative/R3N4-p1.patch', 'selftest/negative/R3N4-p2.patch', 'selftest/negative/R3N4-p3.patch', 'selftest/negative/R3N4-p4.patch'],
+    'C07': ['selftest/negative/R3N2-p1.patch', 'selftest/negative/R3N2-p2.patch', 'selftest/negative/R3N2-p3.patch', 'selftest/negative/R3N2-p4.patch', 'selftest/negative/R3N5-p1.patch', 'selftest/negative/R3N5-p2.patch', 'selftest/negative/R3N5-p3.patch', 'selftest/negative/R3N5-p4.patch'],
+    'C08': ['selftest/negative/N3-get-okor-match-commitment.patch', 'selftest/negative/N4-reorder-rename-proof_verify_init.patch', 'selftest/negative/N8-msm-helper-iter_mut.patch', 'selftest/negative/N9-index-check-closure.patch', 'selftest/negative/R3N1-p1.patch', 'selftest/negative/R3N1-p2.patch', 'selftest/negative/R3N1-p3.patch', 'selftest/negative/R3N1-p4.patch', 'selftest/negative/R3N2-p1.patch', 'selftest/negative/R3N2-p2.patch', 'selftest/negative/R3N2-p3.patch', 'selftest/negative/R3N2-p4.patch', 'selftest/negative/R3N3-p1.patch', 'selftest/negative/R3N3-p2.patch', 'selftest/negative/R3N3-p3.patch', 'selftest/negative/R3N3-p4.patch', 'selftest/negative/R3N4-p1.patch', 'selftest/negative/R3N4-p2.patch', 'selftest/negative/R3N4-p3.patch', 'selftest/negative/R3N4-p4.patch', 'selftest/negative/R3N5-p1.patch', 'selftest/negative/R3N5-p2.patch', 'selftest/negative/R3N5-p3.patch', 'selftest/negative/R3N5-p4.patch'],
+    'C09': ['selftest/negative/N3-get-okor-match-commitment.patch', 'selftest/negative/R3N1-p1.patch', 'selftest/negative/R3N1-p2.patch', 'selftest/negative/R3N1-p3.patch', 'selftest/negative/R3N1-p4.patch', 'selftest/negative/R3N3-p1.patch', 'selftest/negative/R3N3-p2.patch', 'selftest/negative/R3N3-p3.patch', 'selftest/negative/R3N3-p4.patch', 'selftest/negative/R3N4-p1.patch', 'selftest/negative/R3N4-p2.patch', 'selftest/negative/R3N4-p3.patch', 'selftest/negative/R3N4-p4.patch', 'selftest/negative/R3N5-p1.patch', 'selftest/negative/R3N5-p2.patch', 'selftest/negative/R3N5-p3.patch', 'selftest/negative/R3N5-p4.patch'],
+    'C10': ['selftest/negative/N2-helper-domain-input.patch', 'selftest/negative/N7-hash-call-in-helper.patch', 'selftest/negative/R3N5-p1.patch', 'selftest/negative/R3N5-p2.patch', 'selftest/negative/R3N5-p3.patch', 'selftest/negative/R3N5-p4.patch'],
+    'C11': ['selftest/negative/R3N5-p1.patch', 'selftest/negative/R3N5-p2.patch', 'selftest/negative/R3N5-p3.patch', 'selftest/negative/R3N5-p4.patch'],
+    'C12': ['selftest/negative/R3N1-p1.patch', 'selftest/negative/R3N1-p2.patch', 'selftest/negative/R3N1-p3.patch', 'selftest/negative/R3N1-p4.patch'],
+    'C13': ['selftest/negative/R3N6-p1.patch', 'selftest/negative/R3N6-p2.patch', 'selftest/negative/R3N6-p3.patch', 'selftest/negative/R3N6-p4.patch'],
+    'C14': ['selftest/negative/R3N7-p1.patch', 'selftest/negative/R3N7-p2.patch', 'selftest/negative/R3N7-p3.patch', 'selftest/negative/R3N7-p4.patch'],
+    'C15': ['selftest/negative/R3N7-p1.patch', 'selftest/negative/R3N7-p2.patch', 'selftest/negative/R3N7-p3.patch', 'selftest/negative/R3N7-p4.patch'],
+    'C16': ['selftest/negative/N5-C16-helper-correct-rounding.patch', 'selftest/negative/R3N8-p1.patch', 'selftest/negative/R3N8-p2.patch', 'selftest/negative/R3N8-p3.patch', 'selftest/negative/R3N8-p4.patch'],
+    'C17': ['selftest/negative/R3N7-p1.patch', 'selftest/negative/R3N7-p2.patch', 'selftest/negative/R3N7-p3.patch', 'selftest/negative/R3N7-p4.patch', 'selftest/negative/R3N8-p1.patch', 'selftest/negative/R3N8-p2.patch', 'selftest/negative/R3N8-p3.patch', 'selftest/negative/R3N8-p4.patch'],
+    'C18': ['selftest/negative/N6-C18-helper-correct-bits.patch', 'selftest/negative/R3N6-p1.patch', 'selftest/negative/R3N6-p2.patch', 'selftest/negative/R3N6-p3.patch', 'selftest/negative/R3N6-p4.patch'],
+    'C19': ['selftest/negative/R3N7-p1.patch', 'selftest/negative/R3N7-p2.patch', 'selftest/negative/R3N7-p3.patch', 'selftest/negative/R3N7-p4.patch'],
 }
 
 # rules that are also evaluated on the other production configurations in the thorough tier (guards against feature-gated divergence)
